@@ -376,10 +376,33 @@ func (x *Exec) enterLoop(fr *Frame, lr *loopRec, st *State) *State {
 		x.heapTypes[k] = t
 		// automatic frame invariant: the skolem region keeps its entry contents
 		x.assume(st, x.frameFact(nh, t))
-		// regions allocated... nothing else known
-		_ = pre
 	}
-	// cells whose wf mentions nr need re-assumption (nr grew): cheap, skip.
+	// heaps in which the loop only initialises regions it allocates itself:
+	// every region that existed before the loop keeps its contents
+	if !lr.modAll {
+		var fk []string
+		for k := range lr.modFresh {
+			if _, also := lr.modHeaps[k]; !also {
+				fk = append(fk, k)
+			}
+		}
+		sort.Strings(fk)
+		for _, k := range fk {
+			t := lr.modFresh[k]
+			hpre := x.heap(st, t)
+			nh := x.S.Const("hf", x.te.HeapSort(t))
+			st.heaps[k] = nh
+			x.heapTypes[k] = t
+			q := x.S.Fresh("qr")
+			x.assume(st, fmt.Sprintf("(forall ((%s Int)) (! (=> (< %s %s) (= (select %s %s) (select %s %s))) :pattern ((select %s %s))))", q, q, pre.nr, nh, q, hpre, q, nh, q))
+		}
+	}
+	// ghost state may be advanced by calls inside the loop
+	if lr.hasCall {
+		for g := range st.ghost {
+			st.ghost[g] = x.S.Const("g_"+g+"_", x.ghostSorts[g])
+		}
+	}
 	// 3. assume invariants
 	if ls != nil {
 		for _, cl := range ls.Invariants {
